@@ -751,6 +751,11 @@ impl Engine for C09 {
                 }
                 if out.panic.is_some() {
                     st.bump("probe.panic_in_app");
+                    // By-catch (not C09's business, reported in DESIGN.md): where the application panicked.
+                    let e = String::from_utf8_lossy(&out.stderr);
+                    if let Some(l) = e.lines().find(|l| l.starts_with("thread panicked at ")) {
+                        st.bump(&format!("bycatch.{}", l.trim_end_matches(':')));
+                    }
                 }
                 perms.insert(out.perm.clone());
                 match &first {
